@@ -203,3 +203,49 @@ Example equal_prim_nonvacuous :
   let b := PArr (TFixed 2) 3 0 (Some {| nb_bytes := [5%N]; nb_off := 0; nb_len := 3; nb_count := 1 |}) [[1; 0; 8; 8; 3; 0]%N] [] in
   spec_node a = true /\ spec_node b = true /\ equal a b = true /\ logical a = [LInt 1; LNull; LInt 3].
 Proof. vm_compute. repeat split. Qed.
+
+(* ------------------------------------------------------------------ FixedSizeBinary (fixed_binary.rs: the same three paths) *)
+Lemma spec_node_fixedbin a s : p_ty a = TFixedBin s -> spec_node a = true ->
+  spec_nulls a = true /\ (p_off a + p_len a) * Z.to_nat s <= length (buf a 0).
+Proof.
+  intros Ht H. unfold spec_node in H. rewrite Ht in H. cbn zeta in H.
+  apply andb_true_iff in H as [_ H]. apply andb_true_iff in H as [H _]. apply andb_true_iff in H as [H Hb].
+  apply andb_true_iff in H as [H _]. apply andb_true_iff in H as [Hn _]. apply Nat.leb_le in Hb. tauto.
+Qed.
+Lemma dty_eqb_fixedbin s t : dty_eqb (TFixedBin s) t = true <-> t = TFixedBin s.
+Proof. destruct t; cbn [dty_eqb]; split; intros H; try discriminate; [apply Z.eqb_eq in H; now subst | injection H as ->; apply Z.eqb_refl]. Qed.
+Lemma logical_at_fixedbin a s i : p_ty a = TFixedBin s ->
+  logical_at a i = if slot_valid a i then LBytes (chunk (buf a 0) (Z.to_nat s) (p_off a + i)) else LNull.
+Proof. destruct a as [ty len off nulls bufs kids]. cbn [p_ty]. intros ->. reflexivity. Qed.
+
+Theorem equal_iff_logical_fixedbin s a b :
+  p_ty a = TFixedBin s -> spec_node a = true -> spec_node b = true ->
+  (equal a b = true <-> p_ty a = p_ty b /\ logical a = logical b).
+Proof.
+  intros Ht Hsa Hsb. set (w := Z.to_nat s).
+  destruct (spec_node_fixedbin a s Ht Hsa) as [Hna Hba].
+  assert (Hev : equal_values a b 0 0 (p_len a) = primitive_equal w a b 0 0 (p_len a))
+    by (destruct a; cbn [p_ty] in Ht; subst; reflexivity).
+  unfold equal, base_equal. rewrite Hev, Ht, !andb_true_iff, dty_eqb_fixedbin, Nat.eqb_eq, Nat.eqb_eq, equal_nulls_iff.
+  split.
+  - intros [[[[Htb Hl] Hnc] Hv] He]. split; [congruence|].
+    destruct (spec_node_fixedbin b s Htb Hsb) as [Hnb Hbb].
+    apply logical_eq_iff. split; [exact Hl|]. intros i Hi.
+    pose proof (proj1 (primitive_equal_iff w a b 0 0 (p_len a) ltac:(fold w in Hba; lia) ltac:(fold w in Hbb; lia) Hv) He) as He'.
+    rewrite (logical_at_fixedbin a s i Ht), (logical_at_fixedbin b s i Htb).
+    specialize (Hv i Hi). cbn [Nat.add] in Hv. rewrite <- Hv.
+    destruct (slot_valid a i) eqn:Hval; [|reflexivity].
+    specialize (He' i Hi Hval). rewrite !Nat.add_0_r in He'. fold w. now rewrite He'.
+  - intros [Htb Hlog]. symmetry in Htb.
+    destruct (spec_node_fixedbin b s Htb Hsb) as [Hnb Hbb].
+    apply logical_eq_iff in Hlog as [Hl Hlog].
+    assert (Hv : forall i, i < p_len a -> slot_valid a (0 + i) = slot_valid b (0 + i)).
+    { intros i Hi. specialize (Hlog i Hi). rewrite (logical_at_fixedbin a s i Ht), (logical_at_fixedbin b s i Htb) in Hlog.
+      cbn [Nat.add]. destruct (slot_valid a i), (slot_valid b i); try discriminate; reflexivity. }
+    repeat split; try assumption.
+    + apply null_count_eq; assumption.
+    + apply primitive_equal_iff; [fold w in Hba; lia | fold w in Hbb; lia | exact Hv|].
+      intros i Hi Hval. rewrite !Nat.add_0_r in *. cbn [Nat.add] in Hval.
+      specialize (Hlog i Hi). rewrite (logical_at_fixedbin a s i Ht), (logical_at_fixedbin b s i Htb) in Hlog.
+      specialize (Hv i Hi). cbn [Nat.add] in Hv. rewrite <- Hv, Hval in Hlog. now injection Hlog.
+Qed.
